@@ -247,7 +247,7 @@ class C02(Check):
         self._n = 0
 
     def budget(self, tier):
-        k = 1 if tier == 'quick' else 40
+        k = 1 if tier == 'quick' else 100
         return {'random_docs': 1500 * k, 'structname_torture': 400 * k, 'single_freedom': 600 * k,
                 'typedef_in_comment': 20 * k, 'name_reuse': 150 * k, 'format_words': 200 * k}
 
